@@ -94,6 +94,8 @@ def plan(tier, seed):
     else:
       d = depth
     opts = OPTIMIZERS[name][4] if len(OPTIMIZERS[name]) > 4 else {}
+    if opts.get("jit") is False and OPTIMIZERS[name][0] == "ds":
+      d = min(d, 3)      # op-by-op distributed_shampoo: ~5 s per update
     tasks.append({"name": name, "opt": name, "depth": d,
                   # quick: fresh-process resume for three optimizers at crash
                   # points 0 and 1; thorough: all optimizers, points 0, 1, T
